@@ -31,10 +31,9 @@ def generate(G):
         ([2, 1, 1, 2], [2, 2, 2, 2], "rank4-two-interior-units"),
     ]
     quick = {
-        ("2", "2x2", 1, 1), ("2", "2x2", 2, 1), ("2", "2x2", 3, 2),
+        ("2", "2x2", 1, 1), ("2", "2x2", 2, 1),
         ("1x2", "2x2", 1, 2), ("1x2", "2x2", 2, 1),
-        ("2x1", "2x2", 2, 1), ("1", "2x2", 2, 1), ("1x1", "2x2", 2, 1), ("2x1", "1x2", 2, 1),
-        ("2x2", "2x2", 2, 1),
+        ("2x1", "2x2", 1, 1), ("1", "2x2", 2, 1),
         ("2x1x2", "2x2x2", 1, 1), ("2x2", "2x2x2", 1, 1), ("1x2", "2x2x2", 1, 1), ("2x1", "2x2x2", 1, 1),
         ("1x2x1", "2x2x2", 1, 1), ("2", "2x2x2", 1, 1),
     }
@@ -50,8 +49,9 @@ def generate(G):
                 id = "c03_shape_%s_%s_u%d_p%d" % (G.sname(xd), G.sname(yd), u, passes)
                 ls = [G.leaf(xd, dom)]
                 for i in range(npart):
-                    # first partner tracked, the others untracked (keeps the oracle small)
-                    ls.append(G.leaf(yd, dom, tracked=(i == 0)))
+                    # single use: the partner is tracked as well; several uses: partners untracked
+                    # (their gradients are C02's subject and would double the cost of the pass)
+                    ls.append(G.leaf(yd, dom, tracked=(u == 1)))
                 G.ob(id, "C03", "shape",
                      "grad::grad_passes(s, &programs::%s, %s, Seed::Explicit(Dom::%s), false, %d)" % (prog, G.leaves(ls), dom, passes),
                      unwind=n + G.numel(xd) + 3, tier=tier, heavy=(n >= 6 and (u >= 2 or passes >= 2)) or n >= 8,
